@@ -293,6 +293,24 @@ def judge(ctx, env, args, res, nodes):
             continue
         want_pd[k] = v.replace(",", " ")
     nets_writers = [k for k, v in kvs if k == "nets" or obj_of_key(k) == "nets"]
+    # -- only_nets=/no_nets= (the last one in force): `nets` is exactly what the Cartesian parser yields for that restriction on
+    # nets.cfg, in its order; a restriction that selects no net at all must have been rejected (an empty `nets` means "all nets"
+    # to parse_workers, i.e. the selection would be silently ignored)
+    last_netr = next(((k, v) for k, v in reversed(kvs) if k == "nets" or obj_of_key(k) == "nets"), None)
+    if last_netr is not None and last_netr[0] in ("only_nets", "no_nets"):
+        k, v = last_netr
+        try:
+            want_nets = [d["shortname"] for d in direct(env, ["nets.cfg"], f"{k[:-5]} {v}\n" if v else "")]
+        except Exception:      # noqa: BLE001
+            want_nets = []
+        ctx.count("nets-restriction." + ("empty-value" if not v else "selects-none" if not want_nets else "selects-some"))
+        if not want_nets:
+            ctx.violate("nets-restriction-selecting-nothing-accepted",
+                        f"{k}={v!r} selects no net of nets.cfg but is accepted with nets = {out['param_dict'].get('nets')!r} "
+                        f"(an empty nets parameter stands for all nets)", case)
+        elif out["param_dict"].get("nets") != " ".join(want_nets):
+            ctx.violate("nets-restriction-not-cartesian",
+                        f"{k}={v!r}: nets = {out['param_dict'].get('nets')!r}, the Cartesian parser yields {' '.join(want_nets)!r}", case)
     for k, v in want_pd.items():
         if k == "nets" and nets_writers[-1] != "nets":
             continue        # a later only_nets=/no_nets= (even an empty one) rewrites nets: last writer wins
@@ -656,7 +674,9 @@ def equivalences(ctx, env, gen, n):
                                 {"kind": "equiv", "lists": [l1, l2]})
 
 
-WITNESSES = [["only_nets=net2", "only_nets=", "nets=net1"], ["nets=net1", "aaa=b", "no_nets=net2"], ["only_nets_nets=net1"],
+WITNESSES = [["only_nets=cluster3"], ["only_nets=cluster1..cluster2"], ["no_nets=localhost,cluster1,cluster2"],
+             ["only_nets=cluster1..net1"], ["only_nets=cluster1", "no_nets=net6,net7,net8,net9"], ["only_nets=cluster1..net6,net2"],
+             ["only_nets=net2", "only_nets=", "nets=net1"], ["nets=net1", "aaa=b", "no_nets=net2"], ["only_nets_nets=net1"],
              ["nets=net1", "only_nets=net2"], ["only_nets=net2", "nets=net1"], ["only_vm10=x"], ["only_vm1_vm1=Fedora"],
              ["only=tutorial1"], ["only=minimal", "only=quicktest"], ["only=normal", "no=tutorial1"], ["aaa=bbb", "ccc"],
              ["vms=vmX"], ["default_only=nonminimal"], ["only=install"], ["only_nets="], ["only_nets=", "nets=net1"],
